@@ -774,6 +774,92 @@ def ref_sub(a, b):
     return None
 
 
+def _isolation_checks():
+    """Rules registered for one key / one interpretation object / one interpretation class answer
+    there and nowhere else; stacked registrations all take effect and return the plain function."""
+    import funsor
+    from funsor.interpretations import DispatchedInterpretation, StatefulInterpretation
+    from funsor.registry import KeyedRegistry
+    from funsor.terms import Funsor, Number, Variable
+
+    def bad(msg):
+        return {"invariant": "dispatch-leaks-between-registries", "message": msg, "fingerprint": "dispatch-leaks-between-registries"}
+
+    class K1:
+        pass
+
+    class K2:
+        pass
+
+    reg = KeyedRegistry(default=lambda *a: None)
+
+    def f1(x):
+        return "k1"
+
+    def f2(x):
+        return "k2"
+
+    reg.register(K1, Funsor)(f1)
+    reg.register(K2, Number)(f2)
+    x = Variable("x", funsor.Real)
+    one = Number(1.0)
+    if reg.dispatch(K1, one) is not f1 or reg.dispatch(K2, one) is not f2:
+        return bad("KeyedRegistry: rules registered for two keys do not answer for their own key")
+    got = reg.dispatch(K2, x)
+    if got is f1 or got is f2:
+        return bad("KeyedRegistry: a Variable dispatched for key K2 (pattern Number) ran %r" % (getattr(got, "__name__", got),))
+    # a parametrised key registers and dispatches under its origin class
+    reg.register(Number[int, int], int)(f1)
+    if reg.dispatch(Number, 3) is not f1 or reg.dispatch(Number[float, str], 3) is not f1:
+        return bad("KeyedRegistry: a rule registered under a parametrised key is not found under the origin class")
+    if Number in KeyedRegistry(default=lambda *a: None):
+        return bad("KeyedRegistry: a fresh registry claims to contain a key registered in another registry")
+    # stacked registrations
+    reg2 = KeyedRegistry(default=lambda *a: None)
+
+    @reg2.register(K1, int)
+    @reg2.register(K1, str)
+    @reg2.register(K1, Funsor, Funsor)
+    def stacked(*args):
+        return "stacked"
+
+    if not callable(stacked) or getattr(stacked, "__name__", "") != "stacked":
+        return bad("KeyedRegistry.register did not return the plain function (got %r)" % (stacked,))
+    for args in ((3,), ("s",), (x, one)):
+        if reg2.dispatch(K1, *args) is not stacked:
+            return bad("stacked registrations: arguments %r do not reach the rule" % (args,))
+    if reg2.dispatch(K1, 2.5) is stacked:
+        return bad("stacked registrations: a float reached a rule registered for int and str")
+    # interpretation objects and classes
+    d1, d2 = DispatchedInterpretation("iso1"), DispatchedInterpretation("iso2")
+    d1.register(funsor.terms.Unary, funsor.ops.NegOp, Variable)(lambda op, a: "d1")
+    if d2.dispatch(funsor.terms.Unary, funsor.ops.neg, x)(funsor.ops.neg, x) is not None:
+        return bad("a rule registered on one DispatchedInterpretation answers on another")
+
+    class SA(StatefulInterpretation):
+        pass
+
+    class SB(SA):
+        pass
+
+    class SC(StatefulInterpretation):
+        pass
+
+    SA.register(funsor.terms.Unary, funsor.ops.NegOp, Variable)(lambda state, op, a: "sa")
+    SB.register(funsor.terms.Unary, funsor.ops.ExpOp, Variable)(lambda state, op, a: "sb")
+    if SA.registry is SB.registry or SA.registry is SC.registry:
+        return bad("two StatefulInterpretation classes share one registry")
+    for cls, op, want in ((SA, funsor.ops.neg, "sa"), (SB, funsor.ops.exp, "sb")):
+        rule = cls.dispatch(funsor.terms.Unary, op, x)
+        if rule(None, op, x) != want:
+            return bad("StatefulInterpretation %s: its own rule is not selected" % cls.__name__)
+    for cls, op in ((SA, funsor.ops.exp), (SC, funsor.ops.neg), (SC, funsor.ops.exp), (SB, funsor.ops.neg)):
+        rule = cls.dispatch(funsor.terms.Unary, op, x)
+        if rule(None, op, x) is not None:
+            return bad("StatefulInterpretation %s answers with a rule registered on another class (%s)" % (cls.__name__, op))
+    return None
+
+
 def userland_dispatch(payload):
     """A user-defined registry whose patterns parametrise tuples, variadic
     tuples, unions and frozensets; the same argument objects are dispatched in
@@ -1095,6 +1181,10 @@ def _userland_session(payload):
                 violations.append(v)
         tables.append(table)
         mon.checked.clear()
+    # registries are separate objects: what is registered in one place must not answer elsewhere
+    v = _isolation_checks()
+    if v and not violations:
+        violations.append(v)
     # small registries: every pair of patterns in both registration orders, and
     # seeded subsets in seeded orders; the winner is checked against the
     # reference reading of the patterns
